@@ -147,6 +147,53 @@ def make_block(base: str, oname: str, int_shape: tuple, ret: str):
     return arr.tolist() if ret == "list" and len(int_shape) == 1 else arr
 
 
+def main_value_class():
+    """A result type defined in ``__main__`` (as in a user's script): only serialisation *by value* lets another
+    interpreter load such results.  str() of an instance is the provenance text, so oracles are unaffected."""
+    import sys
+
+    main = sys.modules["__main__"]
+    cls = getattr(main, "VerifMainValue", None)
+    if cls is None:
+        ns: dict = {}
+        src = (
+            "class VerifMainValue:\n"
+            "    def __init__(self, t):\n        self.t = t\n"
+            "    def __str__(self):\n        return self.t\n"
+            "    def __repr__(self):\n        return self.t\n"
+            "    def __eq__(self, other):\n        return str(other) == self.t\n"
+            "    def __hash__(self):\n        return hash(self.t)\n"
+        )
+        exec(src, {"__name__": "__main__"}, ns)  # noqa: S102
+        cls = ns["VerifMainValue"]
+        main.VerifMainValue = cls
+    return cls
+
+
+if not os.environ.get("VERIF_NO_MAIN_CLASS"):
+    # at import: every process forked later (pools, Manager servers) knows the class, as with a user's script; an
+    # *independent* interpreter that only loads results (VERIF_NO_MAIN_CLASS=1) does not have it
+    main_value_class()
+
+
+def _wrap_main(r):
+    cls = main_value_class()
+    if isinstance(r, str):
+        return cls(r)
+    if isinstance(r, tuple):
+        return tuple(_wrap_main(x) for x in r)
+    if isinstance(r, list):
+        return [_wrap_main(x) for x in r]
+    if isinstance(r, dict):
+        return {k: _wrap_main(v) for k, v in r.items()}
+    if isinstance(r, np.ndarray):
+        out = np.empty(r.shape, dtype=object)
+        for idx in np.ndindex(*r.shape):
+            out[idx] = _wrap_main(r[idx])
+        return out
+    return r
+
+
 def dict_picker(output: Any, name: str) -> Any:
     return output[name]
 
@@ -173,6 +220,8 @@ def make_body(prog: dict, fn: dict, log=None, hook=None):
             r = {o: make_block(base, o, int_shape, ret) for o in outs}
         else:
             r = tuple(make_block(base, o, int_shape, ret) for o in outs)
+        if r is not None and prog.get("value_class") == "main":
+            r = _wrap_main(r)
         if log is not None:
             log.append(["end", fn["name"], base, os.getpid()])
         return r
@@ -457,6 +506,7 @@ def map_programs(
     root_pool: int = 4,  # number of index names the root inputs draw their axes from (small -> more zips)
     allow_none: bool = True,
     allow_root_defaults: bool = False,
+    max_outputs: int = 2,
 ):
     sizes: dict[str, int] = {}
 
@@ -531,8 +581,8 @@ def map_programs(
                 for a in spec:
                     if a is not None and a not in in_indices:
                         in_indices.append(a)
-        n_out = draw(st.sampled_from([1, 1, 1, 2])) if allow_multi else 1
-        outs = [f"o{f}" + ("ab"[q] if n_out > 1 else "") for q in range(n_out)]
+        n_out = draw(st.sampled_from([1, 1, 1, 2] + [3] * (max_outputs >= 3))) if allow_multi else 1
+        outs = [f"o{f}" + ("abc"[q] if n_out > 1 else "") for q in range(n_out)]
         int_axes: list[str] = []
         if use_mapspec:
             free = [a for a in INDEX_POOL if a not in in_indices]
